@@ -256,6 +256,31 @@ def matrix_protos():
     j += 1
     mk(alpha_tag('Md', j), [Field('meta', 'Seq', entry='Seq', named=False), Field('meta', 'Again', entry='Seq', named=True),
                       Field('ref', 'Inner', packet='Inner', named=False)], subs=[('Inner', [Field('meta', 'Seq', entry='Seq', named=False), Field('meta', 'Code', entry='Code', named=False)])], metadata=md)
+    # padding attribute on one of several fields typed by a zchar MetaData entry; entry order basic / ref / basic
+    j += 1
+    mk(alpha_tag('Md', j), [Field('meta', 'Zed', entry='Zed', named=False, pad=('left', '0')), Field('meta', 'Third', entry='Zed', named=True),
+                            Field('meta', 'Fourth', entry='Zed', named=True, pad=('right', 'sp')), num('Post', 'u16')], metadata=md)
+    md2 = [('Ordered', [MetaEntry('Price', base=num('Price', 'u64')), MetaEntry('LastPx', ref='Price'), MetaEntry('Qty', base=num('Qty', 'u32')),
+                        MetaEntry('AvgPx', ref='Price'), MetaEntry('Code', base=fix('Code', 3))])]
+    j += 1
+    mk(alpha_tag('Md', j), [Field('meta', 'LastPx', entry='LastPx', named=False), Field('meta', 'Qty', entry='Qty', named=False),
+                            Field('meta', 'AvgPx', entry='AvgPx', named=False, repeat=True), Field('meta', 'Code', entry='Code', named=False)], metadata=md2)
+    # explicit default padding attributes under non-default padding options (the attribute must win in every language)
+    j = 0
+    for cfg in ({'FixedStringPadChar': "'0'"}, {'FixedStringPadFromLeft': 'true'}, {'FixedStringPadChar': "'\\x00'", 'FixedStringPadFromLeft': 'true'}, {'FixedStringPadChar': "'0'", 'LittleEndian': 'true'}):
+        for rep in (False, True):
+            j += 1
+            mk(alpha_tag('Mp', j), [fix('Plain', 4, repeat=rep), fix('RightSp', 4, pad=('right', 'sp'), repeat=rep), fix('RightNone', 5, pad=('right', None)),
+                                    fix('LeftSp', 4, pad=('left', 'sp')), fix('LeftNone', 3, pad=('left', None), repeat=rep), num('Post', 'u16')], options=cfg)
+    # field-name shapes (packet names stay UpperCamel): lowerCamel, snake_case, ALLCAPS, digit-bearing, acronyms
+    j = 0
+    for fa, fb, mk_, mn, rn in [('clOrdId', 'orderQty', 'msgType', 'body', 'item'), ('cl_ord_id', 'order_qty', 'msg_type', 'msg_body', 'an_item'),
+                                 ('CLORDID', 'QTY', 'KIND', 'BODY', 'ITEM'), ('Leg1Qty', 'Px2', 'Kind3', 'Body4', 'Item5'), ('ClOrdID', 'HTTPCode', 'MsgKind', 'XMLBody', 'DBItem')]:
+        j += 1
+        tag = alpha_tag('Mi', j)
+        mk(tag, [num(fa, 'u32'), dyn(fb), num(mk_, 'u8'), Field('match', mn, key=mk_, pairs=[([1], 'Logon'), ([2], 'Logout')]),
+                 Field('ref', rn, packet='Detail', named=True), Field('inline', 'In' + tag, fields=[num(fa, 'u16'), fix(fb, 3)])],
+           subs=[('Logon', [dyn(fa)]), ('Logout', [num(fb, 'u8')]), ('Detail', [num(fa, 'u16')])])
     # char
     j = 0
     for rep in (False, True):
